@@ -174,7 +174,12 @@ def worker(ctx, job):
             with open(pf, "w") as fh:
                 json.dump(prog, fh)
             spec = {"roots": roots, "actors": [fsx.actor(flavour, "M", pf, cwd=cwd)], "monitor": True, "timeout_ms": 15000}
-            rep = fsx.run(spec, ctx.dir)
+            def _once():
+                fsutil.restore(real_cache, init)
+                if init is None:
+                    fsutil.wipe(real_cache)
+                return fsx.run(spec, ctx.dir)
+            rep = fsx.confirmed(_once)
             res["evals"] += 1
             res["distinct"].add(V.h(flavour, side, rootform, temp, op, key))
             case = {"flavour": flavour, "side": side, "root": rootform, "cache_state": temp, "op": op, "key": key}
